@@ -2,6 +2,7 @@ package main
 
 import (
 	"fmt"
+	"go/token"
 	"go/types"
 	"regexp"
 	"strings"
@@ -315,6 +316,43 @@ func runC12(r *Run, p *Prog) {
 						}, nil, func(fs []Fact) bool { return hasFact(fs, "EQ", errT, "nil") })
 						if !tested {
 							okArm, why = false, "the typed error is returned although decoding its parameters may have failed (decode error not examined)"
+						}
+						// the parameters are decoded exactly when there are any: the decode reads *raw under raw != nil, and
+						// without passing the decode the typed error is returned only where raw == nil
+						var raw ssa.Value
+						if ld, ok := c.Call.Args[0].(*ssa.UnOp); ok && ld.Op == token.MUL {
+							raw = ld.X
+						} else if cv, ok := c.Call.Args[0].(*ssa.ChangeType); ok {
+							if ld, ok := cv.X.(*ssa.UnOp); ok && ld.Op == token.MUL {
+								raw = ld.X
+							}
+						}
+						if raw == nil {
+							okArm, why = false, "the decode does not read the raw parameters of the error"
+						} else {
+							rawT := T.T(raw)
+							if !hasFact(T.FactsAt(c.Block()), "NE", rawT, "nil") {
+								okArm, why = false, "the raw parameters are dereferenced where they are not known to be present (flipped or missing nil test): an error reply without parameters crashes the client, one with parameters is not decoded"
+							}
+							if len(s.Instrs) > 0 {
+								skip, _ := reachFromBlockAvoid(de, s, func(i ssa.Instruction) bool {
+									ret, ok := i.(*ssa.Return)
+									if !ok {
+										return false
+									}
+									mi, ok := ret.Results[0].(*ssa.MakeInterface)
+									if !ok {
+										return false
+									}
+									_, isAl := mi.X.(*ssa.Alloc)
+									return isAl
+								}, func(i ssa.Instruction) bool { return i == ssa.Instruction(c) }, func(x, y *ssa.BasicBlock) bool {
+									return hasFact(T.edgeFactsOn(x, y), "EQ", rawT, "nil")
+								})
+								if skip {
+									okArm, why = false, "the typed error can be returned without decoding parameters that are present"
+								}
+							}
 						}
 					}
 					okD = okArm && target != nil
